@@ -160,7 +160,7 @@ PROPS = {
 }
 
 # properties whose quick check has been run green on the unchanged tree by me
-READY = {"C04", "C16"}
+READY = {"C04", "C16", "C14", "C05", "C17", "C08", "C10"}
 
 NA_REASONS = {
     "C11": "Order-independence is a statement about sequences of whole evaluations (load/eval/gc/eval) sharing memoised thunks, the interner and the import cache; it needs the interpreter loop and Program::new (lexing/parsing/analysing the 2k-line stdlib) inside the encoding, and the GOTO program for a single Evaluator::run already exceeds 22 GB in goto-instrument. No kernel smaller than a whole evaluation carries this property.",
@@ -198,7 +198,7 @@ def main():
             na.append({"property_id": pid, "reason": NA_REASONS.get(pid, NOT_YET)})
     m = {
         "version": 1,
-        "setup_cmd": "true",
+        "setup_cmd": "./check --setup",
         "hooks": {
             "guard": "kani",
             "enable": "no hooks in /repo: each check copies /repo's working tree to a scratch overlay and appends `#[cfg(kani)] mod kani_harness;` to the target modules (tools/overlay.py); the cfg is set by cargo kani only",
